@@ -683,6 +683,19 @@ pub fn sheet_stream(s: &BSheet) -> Vec<u8> {
                 u16le(&mut d, rgce.len() as u16);
                 d.extend_from_slice(rgce);
                 out.extend(record(0x0006, &d));
+                // the anchor cell of an array formula: FORMULA, ARRAY, then (for a string result) STRING
+                if s.junk & 32 != 0 && c.col % 2 == 0 {
+                    let mut a = Vec::new();
+                    u16le(&mut a, c.row);
+                    u16le(&mut a, c.row);
+                    a.push(c.col as u8);
+                    a.push(c.col as u8);
+                    u16le(&mut a, 0); // flags
+                    u32le(&mut a, 0); // unused
+                    u16le(&mut a, 3);
+                    a.extend_from_slice(&[0x1E, 1, 0]);
+                    out.extend(record(0x0221, &a));
+                }
                 if let FVal::Str(t, wide) = value {
                     out.extend(record(0x0207, &long_string(t, *wide)));
                 }
